@@ -769,17 +769,30 @@ struct TfSim
         dq.clear(); xs.assign(nn, 0); ys.assign(dn, 0); xs2.assign(nn, 0); ys2.assign(dn, 0); outM.clear(); exact = true; shift_valid = true; overflowed = false;
         c.st.add("fault.reset_zero");
     }
+    bool big = false;
+    // feedback coefficients: small integers; for long delay lines mostly zero (a dense feedback of that length leaves every
+    // representable range within a few steps) with the oldest tap always live
+    R den_coef(uint64_t cs, unsigned i, unsigned n) const
+    {
+        uint64_t const h = splitmix64(cs + 100 + i);
+        if (!big || n <= 8) return (R)((int64_t)(h % 5) - 2);
+        if (i + 1 == n) return (R)((h & 1) ? 1 : -1);
+        return (h % 16) ? (R)0 : (R)((h >> 8 & 1) ? 1 : -1);
+    }
     void exec(Plan const &p)
     {
         SA.reset();
-        nn = (unsigned)(mag64(p.knob("num_n", 1)) % 9); dn = (unsigned)(mag64(p.knob("den_n", 0)) % 9);
+        big = p.knob("bigorder", 0) != 0; // one transfer-function plan in ten: orders up to 160 (long delay lines), sparse feedback
+        unsigned const lim = big ? 161 : 9;
+        nn = (unsigned)(mag64(p.knob("num_n", 1)) % lim); dn = (unsigned)(mag64(p.knob("den_n", 0)) % lim);
+        if (big && (nn > 32 || dn > 32)) c.st.add("probe.tf_order_above_32");
         unit = p.knob("tiny", 0) ? (R_IS_DOUBLE ? DBL_TRUE_MIN : (double)FLT_TRUE_MIN) : 1.0;
         if (unit != 1.0) c.st.add("probe.tf_subnormal_samples");
         la = (int)(p.knob("la", 1) % 5); lb = (int)(p.knob("lb", 1) % 5); delay = (unsigned)(mag64(p.knob("delay", 1)) % 6);
         uint64_t const cs = (uint64_t)p.knob("coefseed", 1);
         num = (R *)SA.halloc(nn * sizeof(R)); den = (R *)SA.halloc(dn * sizeof(R));
         for (unsigned i = 0; i < nn; ++i) num[i] = (R)((int64_t)(splitmix64(cs + i) % 17) - 8);
-        for (unsigned i = 0; i < dn; ++i) den[i] = (R)((int64_t)(splitmix64(cs + 100 + i) % 5) - 2);
+        for (unsigned i = 0; i < dn; ++i) den[i] = den_coef(cs, i, dn);
         if (nn == 0) c.st.add("probe.tf_numerator_order_zero");
         if (dn == 0) c.st.add("probe.tf_denominator_order_zero");
         null_for_order0 = p.knob("null0", 0) != 0;
@@ -801,16 +814,16 @@ struct TfSim
             switch (o.kind)
             {
             case F_INPUT: feed((double)((int64_t)(mag64(o.a[0]) % 129) - 64), (double)((int64_t)(mag64(o.a[1]) % 129) - 64)); break;
-            case F_INPUTS: { size_t n = 1 + (size_t)(mag64(o.a[2]) % 24); for (size_t k = 0; k < n && c.ok(); ++k) feed((double)((int64_t)((mag64(o.a[0]) + k * 31) % 129) - 64), (double)((int64_t)((mag64(o.a[1]) + k * 17) % 129) - 64)); break; }
+            case F_INPUTS: { size_t n = 1 + (size_t)(mag64(o.a[2]) % (big ? 400 : 24)); for (size_t k = 0; k < n && c.ok(); ++k) feed((double)((int64_t)((mag64(o.a[0]) + k * 31) % 129) - 64), (double)((int64_t)((mag64(o.a[1]) + k * 17) % 129) - 64)); break; }
             case F_ZERO: reset_all(); break;
             case F_QUIET: { size_t n = 1 + (size_t)(mag64(o.a[1]) % 16); double cst = (double)((int64_t)(mag64(o.a[0]) % 9) - 4); for (size_t k = 0; k < n && c.ok(); ++k) feed(cst, 0); break; }
             case F_SETNUM: case F_SETDEN:
             { // re-point the numerator (or denominator) of a running filter: that side's delay line restarts from zero, the other side keeps its history
                 bool const isnum = o.kind == F_SETNUM;
-                unsigned const newn = (unsigned)(mag64(o.a[0]) % 9);
+                unsigned const newn = (unsigned)(mag64(o.a[0]) % (big ? 161 : 9));
                 uint64_t const cs2 = mag64(o.a[1]);
                 R *co = (R *)SA.halloc(newn * sizeof(R));
-                for (unsigned i = 0; i < newn; ++i) co[i] = isnum ? (R)((int64_t)(splitmix64(cs2 + i) % 17) - 8) : (R)((int64_t)(splitmix64(cs2 + 100 + i) % 5) - 2);
+                for (unsigned i = 0; i < newn; ++i) co[i] = isnum ? (R)((int64_t)(splitmix64(cs2 + i) % 17) - 8) : den_coef(cs2, i, newn);
                 F *all[5] = {&M, &Y, &L, &D, &MM};
                 for (F *f : all)
                 {
@@ -1046,6 +1059,7 @@ struct CtlEngine : Engine
                 p.set("la", (int64_t)r.range(-4, 4)); p.set("lb", (int64_t)r.range(-4, 4)); p.set("delay", (int64_t)r.below(6));
                 p.set("tiny", r.chance(1, 8));
                 p.set("member_init", r.chance(1, 2)); p.set("null0", r.chance(1, 2));
+                if (r.chance(1, 10)) { p.set("bigorder", 1); p.set("num_n", (int64_t)r.below(161)); p.set("den_n", (int64_t)r.below(161)); }
             }
             else { p.set("regime", r.chance(1, 2)); p.set("alpha", (int64_t)r.below(1001)); if (!tf && r.chance(1, 8)) p.set("regime", 2); }
             std::vector<int> kinds = {F_INPUT, F_INPUT, F_INPUT, F_INPUTS, F_INPUTS};
